@@ -618,3 +618,19 @@ def expr_cases(seed, n, start_id=1, depth=3, auto=None):
         c["emit_values"] = True
         cases.append(c)
     return cases
+
+
+# ---------------------------------------------------------------------------
+# shared corpus: "every program generated for C02-C07" (used by C08-C10, C16, C29, C31, C32, C38)
+# ---------------------------------------------------------------------------
+
+def corpus(seed, n_stmt, n_inh, n_mod, n_expr, auto="mixed", start_id=1):
+    cases = []
+    a = {"mixed": None, "on": True, "off": False}[auto]
+    cases += random_cases(seed * 31 + 1, n_stmt, start_id=start_id, auto_mode=auto, size=8)
+    cases += inherit_cases(seed * 31 + 2, n_inh, start_id=start_id + len(cases), auto=a)
+    cases += module_cases(seed * 31 + 3, n_mod, start_id=start_id + len(cases), auto=a)
+    cases += expr_cases(seed * 31 + 4, n_expr, start_id=start_id + len(cases), depth=3, auto=a)
+    for c in cases:
+        c.pop("emit_values", None)
+    return cases
